@@ -128,10 +128,10 @@ pub fn params_for(prop: &str, thorough: bool) -> GenParams {
         }
         "C16" => {
             p.profile = "C16";
-            p.p_contract = 600;
+            p.p_contract = 400;
             p.kind_w = [2, 3, 6];
             p.p_fail = 100;
-            p.p_abort = 30;
+            p.p_abort = 150;
         }
         "C17" => {
             p.profile = "C17";
